@@ -10,6 +10,7 @@ import copy
 import os
 
 import numpy as np
+from ..seams import _REAL_DEFAULT_RNG
 
 from ..models import guppi
 from ..worlds import frame as F
@@ -312,6 +313,22 @@ def execute(sc, ctx):
                     seams.listing = "sorted"
                 backends[op["id"]] = be
                 ctx.event(kind, be.input_num_blocks, be.blocks_per_file, be.header_size)
+            elif kind == "f_consolidate":
+                ids = []
+                for i in op["ids"]:
+                    if i in frames and i not in ids:
+                        ids.append(i)
+                if not ids or not _compatible([frames[i] for i in ids]):
+                    continue
+                c = stg.Cadence([frames[i] for i in ids]).consolidate()
+                # consolidate() takes no seed; the user seeds the new frame's generator
+                c.rng = _REAL_DEFAULT_RNG(op["seed"])
+                frames[op["new"]] = c
+                rng_group[op["new"]] = ("own", op["new"])
+                touched.update(ids + [op["new"]])
+                touch(op["new"])
+                ctx.hit("frame_from_consolidated_cadence")
+                ctx.event(kind, *frame_obs(c))
             elif kind == "cad_inject":
                 ids = [i for i in op["ids"] if i in frames]
                 if len(ids) < 1:
